@@ -52,14 +52,20 @@ def inner_graph(kind, mapped, fail_vals=(), branch_vals=()):
     return IR.prog("inner", nodes, max_iter=1000)
 
 
-def mapping_job(rng, kind, mapped, lens, mode_map, eh, runner_mode, rename, fail_idx, branch_idx, clone=None):
-    """A graph with one mapping node `inner` over `mapped`, a broadcast input and a consumer of the lists."""
+def mapping_job(rng, kind, mapped, lens, mode_map, eh, runner_mode, rename, fail_idx, branch_idx, clone=None, gen_source=False):
+    """A graph with one mapping node `inner` over `mapped`, a broadcast input and a consumer of the lists.
+    gen_source: the mapped list is not supplied by the caller but PRODUCED by an upstream generator node."""
     lists, provided = [], [["b", "in.b"]]
+    gen_items = ["S.x(seed=in.seed)#0", "S.x(seed=in.seed)#1"]
     for p, n in zip(mapped, lens):
+        if gen_source:
+            assert mapped == ["x"] and lens == (2,) and not rename
+            provided.append(["seed", "in.seed"])
+            continue
         items = item_names(p, n)
         lists.append([list_text(items), items])
         provided.append([p + "s" if rename else p, list_text(items)])
-    first = item_names(mapped[0], lens[0])
+    first = gen_items if gen_source else item_names(mapped[0], lens[0])
     fail_vals = [first[i] for i in fail_idx if i < len(first)]
     branch_vals = [first[i] for i in branch_idx if i < len(first)]
     sub = inner_graph(kind, mapped, fail_vals, branch_vals)
@@ -76,7 +82,11 @@ def mapping_job(rng, kind, mapped, lens, mode_map, eh, runner_mode, rename, fail
                        map_over=[w for w, p in zip(wrapper_in, ins) if p in mapped], map_mode=mode_map, map_eh=eh,
                        clone=clone or [IR.NONE])
     consumer = IR.func("C", [wrapper_out[0]], ["out"])
-    prog = IR.prog("top", [gn, consumer] if rng.random() < 0.5 else [consumer, gn])
+    nodes = [gn, consumer] if rng.random() < 0.5 else [consumer, gn]
+    if gen_source:
+        src = IR.func("S", ["seed"], ["x"], fn="gen", is_async=runner_mode == "async" and rng.random() < 0.5)
+        nodes.insert(rng.randint(0, 2), src)
+    prog = IR.prog("top", nodes)
     return gen.job(0, prog, provided, mode=runner_mode, lists=lists)
 
 
@@ -248,6 +258,14 @@ def node_jobs(rng, thorough):
                                 clone = rng.choice([None, ["~all"], ["b" ]]) if not rename else None
                                 j = mapping_job(rng, kind, mapped, lens, mode_map, eh, rng.choice(["sync", "async"]), rename, fail_idx, branch_idx, clone)
                                 pairs.append((j, f"map_over/{kind}/{'+'.join(mapped)}/{mode_map}/{lens}/{eh}/fail{fail_idx}/{'ren' if rename else 'id'}"))
+    # the mapped list is produced by an upstream (sync / async) generator node
+    for kind in ("single", "chain", "chain2", "multi", "branch"):
+        for eh in ("raise", "continue"):
+            for fail_idx in ((), (0,), (1,)):
+                for runner_mode in ("sync", "async"):
+                    branch_idx = (1,) if kind == "branch" else ()
+                    j = mapping_job(rng, kind, ["x"], (2,), "zip", eh, runner_mode, False, fail_idx, branch_idx, None, gen_source=True)
+                    pairs.append((j, f"map_over/{kind}/generated-list/{eh}/fail{fail_idx}"))
     return pairs
 
 
